@@ -201,6 +201,7 @@ fn decode(t: &mut Tape) -> Case {
     p.scratch_len = SCRATCH_LEN;
     p.index_gaps_permille = 200;
     p.nop_placeholders = true;
+    p.function_index = true;
     let mut g = gen_fn(t, &p);
     // enrich with the promised operation shapes
     let mut counter = 1000usize;
